@@ -105,7 +105,7 @@ impl Flusher {
             )
             .await?;
             #[cfg(sneldb_verif)]
-            crate::verif_hooks::vp("fl_type_written");
+            crate::verif_hooks::vpd("fl_type_written", event_type);
         }
 
         // Only append SegmentIndex entry if at least one event type had non-empty events
